@@ -192,14 +192,14 @@ INFO['C02'] = {
     'assumptions': ['a layer that treats its backend as an uninterpreted function of the coordinate cannot depend on what lies beneath (compositionality, stated)'],
 }
 INFO['C10'] = {
-    'bounds': 'clamp<probe>: N,M in 1..4, coordinate scalars int/unsigned/size_t/float/double, all coordinates incl. extremes and '
+    'bounds': 'clamp<probe>: N,M in 1..4, coordinate scalars int/unsigned/size_t/float/double (and int8/uint8/int16/uint16/long for (N,M) = (1,1), (2,3)), all coordinates incl. extremes and '
               'infinities (NaN excluded), all boxes lo<=hi; array-backed: clamp<strided<array>> with symbolic extents and box inside '
               'the extents (INT mode), clamp below/above linear with symbolic extents',
     'outside': 'NaN coordinates; boxes with lo>hi (std::clamp precondition)',
     'cuts': 'probe backend (UF)', 'assumptions': [],
 }
 INFO['C11'] = {
-    'bounds': 'backup<probe<N,M>>: N,M in 1..4, coordinate scalars int/size_t/float/double, all coordinates (NaN excluded), all boxes '
+    'bounds': 'backup<probe<N,M>>: N,M in 1..4, coordinate scalars int/size_t/float/double (and int8/uint8/int16/uint16/unsigned/long for (N,M) = (1,1), (2,3)), all coordinates (NaN excluded), all boxes '
               '(also lo>hi), all defaults bit for bit; probe call counter',
     'outside': 'NaN coordinates', 'cuts': 'probe backend (UF)', 'assumptions': [],
 }
@@ -230,6 +230,15 @@ def layer_units(tier, layers):
                 U += unit(f'c10_clamp_{n}_{m}_{tin}_{tout}', H, f'clamp_h<{n},{m},{tin},{tout}>()', flavours=fl,
                           sites=[1, 2, 3, 4], diff=(n <= 2), weight=(3 ** n if tin in ('float', 'double') else 1),
                           timeout=3600 if n == 4 else 900)
+    if 'clamp' in layers:
+        # narrow integer coordinate types (promotion to int inside comparisons and differences)
+        for tin, tn in (('uint8_t', 'u8'), ('uint16_t', 'u16'), ('int8_t', 'i8'), ('int16_t', 'i16'), ('long', 'long')):
+            for n, m in ((1, 1), (2, 3)):
+                U += unit(f'c10_clamp_{n}_{m}_{tn}_float', H, f'clamp_h<{n},{m},{tin},float>()', sites=[1, 2, 3, 4], flavours=('rel', 'san') if n == 2 else ('rel',))
+    if 'backup' in layers:
+        for tin, tn in (('uint8_t', 'u8'), ('uint16_t', 'u16'), ('int8_t', 'i8'), ('int16_t', 'i16'), ('unsigned', 'unsigned'), ('long', 'long')):
+            for n, m in ((1, 1), (2, 3)):
+                U += unit(f'c11_backup_{n}_{m}_{tn}_float', H, f'backup_h<{n},{m},{tin},float>()', sites=[1, 2, 3, 4], flavours=('rel', 'san') if n == 2 else ('rel',))
     if 'backup' in layers:
         tins = ['int', 'size_t', 'float', 'double']
         for i, (n, m) in enumerate(pairs):
